@@ -6,6 +6,7 @@ Model), so it keeps working whatever happens to the code or the model.
 import Sqroot.Driver.SpecRoot
 import Sqroot.Driver.SpecPos
 import Sqroot.Driver.SpecScript
+import Sqroot.Driver.SpecCtor
 open Sqroot.Driver
 
 def specLine (l : Line) : String :=
@@ -21,6 +22,11 @@ def specLine (l : Line) : String :=
   | "pos", [_, script] => specPosLine script l.rawRes
   | "script", [v, desc, stmts] => specScriptLine v desc stmts l.rawRes
   | "conc", [v, desc, progs] => specConcLine v desc progs l.rawRes
+  | "ctor", [_, fn, a, b] =>
+    match a.toInt?, b.toInt? with
+    | some a, some b => specCtorLine fn a b l.rawRes
+    | _, _ => "FAIL bad args"
+  | "zv", [_] => specZvLine l.rawRes
   | _, _ => "skip"
 
 def main : IO Unit := do
